@@ -28,7 +28,7 @@ ASSUMPTIONS = ["placements whose best and second-best candidate differ by < 1e-3
                "planar second molecules far from the origin are known finding F11 (float32 noise decides the out-of-plane sign); planar batches "
                "with |p| <= 4 A are judged strictly"]
 EXHAUSTIVE = {"quick": False, "thorough": False}
-MIN_NONTRIVIAL = {"quick": 6, "thorough": 60}
+MIN_NONTRIVIAL = {"quick": 6, "thorough": 100}
 SHARD_TIMEOUT = {"quick": 1200, "thorough": 7200}
 
 REG = {}   # id(trajectory universe) -> dict(placements, grid parts, flags)
@@ -316,7 +316,7 @@ def drive(tr, pts, io, d, rng, nprng, tier, idx, cache):
 
 
 def shards(tier, seed):
-    n, per = (12, 2) if tier == "quick" else (16, 7)
+    n, per = (12, 2) if tier == "quick" else (16, 14)
     return [{"rseed": seed * 1000 + i, "count": per} for i in range(n)]
 
 
